@@ -256,7 +256,11 @@ class C02(Prop):
         ("F", "counterexamples proved by computation: an identifier in use by a third node, inadmissible leg specs, or a non-inverse permutation break the invariant "
               "although the code accepts them (they are the stated preconditions; not generated)"),
         ("F", "equal diagrams denote equal tensors over any commutative semiring; s_tensordot/s_transpose denote np.tensordot/np.transpose on entries (Wire/SemProofs.v, SemEntryProofs.v)"),
-        ("I", "per explored sequence: ops_okb (the theorems' preconditions) and wfb on every reachable state, by vm_compute"),
+        ("F", "network VALUE preserved: over any commutative semiring and any atom table, access/rename/replace/contract leave net_value unchanged at every wire "
+              "assignment; split under the kernel contract def_holds (Q.R = A over the new bond), insert_identity under eye_atom; lifted to every add_child-free "
+              "sequence (C02_run_net_value); a contracted node's tensor is the sum over the bond of the product of the two old tensors (C02_contract_node_value)"),
+        ("I", "per explored sequence: ops_okb (the theorems' preconditions), wfb and the extended invariant wfsb (atom tables closed, bound wires private) "
+              "on every reachable state, by vm_compute"),
         ("O", "kernel factors (QR/SVD/explicit) are fresh atoms whose product over the new bond equals the input; validated numerically through the dense oracle"),
         ("V", "model = code: exact step-by-step correspondence (structure, dict orders, leg permutations, shapes, every tensor against its diagram)"),
     ]
@@ -395,8 +399,8 @@ class C02(Prop):
         pre = []
         for ob, idm in zip(obs, self._idmaps):
             body = "[" + "; ".join("(" + wmodel.coq_op(o, idm) + ")" for o in ob["ops"]) + "]"
-            pre.append(f"(ops_okb empty_store {body}, run_wfb empty_store {body})")
-        pvals = coq_eval(ctx, wmodel.IMPORTS.replace("TTN.Canon", "TTN.Canon TTN.Inv TTN.InvRun"), pre, shard=25, scope="nat_scope", timeout=600)
+            pre.append(f"(ops_okb empty_store {body}, map2b (run_wfb empty_store {body}) (run_wfsb empty_store {body}))")
+        pvals = coq_eval(ctx, wmodel.IMPORTS.replace("TTN.Canon", "TTN.Canon TTN.Inv TTN.InvRun TTN.InvSem") + " Definition map2b (a b : list bool) := map (fun p => andb (fst p) (snd p)) (combine a b).", pre, shard=25, scope="nat_scope", timeout=600)
         self._inst = [0, 0, []]
         for case, ob, pv in zip(cases, obs, pvals):
             if isinstance(pv, BaseException):
